@@ -34,6 +34,9 @@ func c19APIcases(tier string) []fw.Case {
 		}
 	}
 	cs = append(cs, fw.Mk("api/misc", c19API{Mode: "api", Kind: "misc", Rep: scale(tier, 2, 300)}))
+	for i, w := range []string{"q1x3", "q2x2", "mixed", "waits"} {
+		cs = append(cs, fw.Mk(fmt.Sprintf("api/response-timeouts-%d-%s", i, w), c19API{Mode: "api", Kind: "timeouts", Cause: w, Rep: 1}))
+	}
 	for i := 0; i < 8; i++ {
 		cs = append(cs, fw.Mk(fmt.Sprintf("api/retry-chains-%d", i), c19API{Mode: "api", Kind: "chain", Rep: scale(tier, 40, 3000)}))
 	}
@@ -56,6 +59,8 @@ func c19APIRun(c fw.Case, env *fw.Env) fw.Result {
 		var trc []string
 		if p.Kind == "misc" {
 			sig, det = c19Misc()
+		} else if p.Kind == "timeouts" {
+			sig, det, trc = c19Timeouts(p.Cause, r.Counters)
 		} else if p.Kind == "chain" {
 			sig, det, trc = c19Chain(rng, i)
 			r.Counters["retry_chains"]++
@@ -564,6 +569,40 @@ func c19Chain(rng *rand.Rand, rep int) (sig, detail string, trace []string) {
 		}
 		handle = h
 		cli.Close()
+	}
+	return "", "", nil
+}
+
+// c19Timeouts: with RetryClient.ResponseTimeout set, acknowledgements are dropped on first transmissions and
+// on retransmissions; every error reported through OnError that stems from an expired timeout must be
+// identifiable as RequestTimeoutError (errors.As).
+func c19Timeouts(wname string, counters map[string]int) (sig, detail string, trace []string) {
+	w := workloads[wname]
+	n := w.reqPackets()
+	for k := 2; k <= n; k++ {
+		for d := 0; d <= 3; d++ {
+			f := []scen.Fault{{At: k, Kind: scen.DropResp}}
+			if d > 0 {
+				f = append(f, scen.Fault{At: k + d, Kind: scen.DropResp})
+			}
+			sc := scen.Scenario{Client: "reconnect", Cfg: scen.BrokerCfg{Method: "A", Session: "keep"}, Pre: w.Pre, Steps: w.Steps, Faults: f, RespMs: 8, TimeoutMs: 40, WaitBaseMs: 1, WaitMaxMs: 2}
+			run := scen.Exec(&sc)
+			if run.Inconcl != "" || run.Stuck {
+				counters["timeout_runs_skipped"]++ // C18's business
+				continue
+			}
+			for _, e := range run.Tr.Snapshot() {
+				if e.Kind != memnet.KOnError {
+					continue
+				}
+				if strings.Contains(e.Err, "deadline exceeded") {
+					counters["timeout_errors_checked"]++
+					if e.S != "RequestTimeoutError" {
+						return "timeout-not-identifiable", fmt.Sprintf("workload %s faults %v: OnError reported %q, which stems from the expired ResponseTimeout but errors.As(*RequestTimeoutError) fails", wname, f, e.Err), run.Tr.Dump(80)
+					}
+				}
+			}
+		}
 	}
 	return "", "", nil
 }
